@@ -175,6 +175,14 @@ func (u *uploader) CreateMultipartUpload(bucket, object string, meta map[string]
 	u.mu.Lock()
 	defer u.mu.Unlock()
 
+	// The handler has seen the bucket, but it may have been deleted since
+	// (see DeleteBucket): an upload must not outlive the bucket it is for.
+	if exists, err := u.storage.BucketExists(bucket); err != nil {
+		return "", err
+	} else if !exists {
+		return "", BucketNotFound(bucket)
+	}
+
 	u.uploadID.Add(u.uploadID, add1)
 
 	mpu := &multipartUpload{
@@ -196,13 +204,20 @@ func (u *uploader) CreateMultipartUpload(bucket, object string, meta map[string]
 	return mpu.ID, nil
 }
 
-// DeleteBucket forgets the uploads of a bucket that has been deleted. They
-// would otherwise be listed by, and could be completed into, a bucket created
-// under the same name later.
-func (u *uploader) DeleteBucket(bucket string) {
+// DeleteBucket runs del, the deletion of the bucket in the backend, and when
+// that succeeds forgets the bucket's uploads: they would otherwise be listed
+// by, and could be completed into, a bucket created under the same name later.
+// Both happen under the uploader's lock, which makes them one step for
+// CreateMultipartUpload: an upload is either gone with the old bucket or
+// belongs to a bucket that exists.
+func (u *uploader) DeleteBucket(bucket string, del func() error) error {
 	u.mu.Lock()
 	defer u.mu.Unlock()
+	if err := del(); err != nil {
+		return err
+	}
 	delete(u.buckets, bucket)
+	return nil
 }
 
 func (u *uploader) ListParts(bucket, object string, uploadID UploadID, marker int, limit int64) (*ListMultipartUploadPartsResult, error) {
